@@ -37,6 +37,18 @@ entry(
     "DESIGN.md section 2, C12",
 )
 
+entry(
+    "C14",
+    "Hypothesis model-based history testing: generated setter sequences applied to the real CovModel and to a pure-Python reference model",
+    "Generated operation sequences (all setters incl. dim, integral_scale, set_arg_bounds, hankel_kw; scalar/list, in/on/out of bounds; "
+    "plain/temporal/lat-lon/lat-lon+temporal; 17 classes) are executed on the real model and on a reference model of the documented "
+    "semantics; every public attribute is compared after each step, rejected assignments must leave the model untouched, and the final "
+    "model must equal a directly constructed one (==, variogram, spectral density). Exploration of bounded histories, not a proof.",
+    "Trusted: the reference model encodes the documented rules (docstrings of CovModel, set_len_anis, set_anis, set_angles, "
+    "set_model_angles); scipy quad as integral-scale oracle where its own error estimate is small.",
+    "DESIGN.md section 2, C14",
+)
+
 
 def main():
     props = [json.loads(l) for l in open(os.path.join(VERIF, "properties.jsonl"))]
